@@ -304,7 +304,8 @@ def c04():
         "props_file": "Props/C04.v",
         "theorems": ["C04_release_safe", "C04_no_release_when_disabled", "C04_source_tie", "C04_source_tie_ctor", "C04_source_tie_ctor_other", "C04_many_chunks", "C04_many_chunks_side_condition_needed",
                      "C04_chunks", "C04_run_chunks", "C04_packed_form", "C04_function",
-                     "C04_release_example"],
+                     "C04_release_example",
+                     "C04_do_fit_chunks_labelled_eq", "C04_do_fit_chunks_default_continue", "C04_run_many_chunks_labelled"],
         "model_files": ["Model/Obs.v", "Model/Mem.v"],
         "suites": [suite_forms.suite_forms, suite_forms.suite_mmap, __import__('suite_numpysem').suite_numpysem],
         "search": suite_forms.search_c04,
@@ -442,7 +443,8 @@ def c16():
                      "C16_split_plan_digits", "C16_split_plan_names_sorted", "C16_split_plan_defined",
                      "C16_api", "C16_single_file_any_interleaving", "C16_single_file_any_schedule",
                      "C16_single_file_equals_api", "C16_multi_file_any_schedule",
-                     "C16_overlapping_ranges_break", "C16_too_few_digits_break", "C16_shuffle_multiset"],
+                     "C16_overlapping_ranges_break", "C16_too_few_digits_break", "C16_shuffle_multiset",
+                     "C16_seq_lookup_some_iff", "C16_seq_lookup_out_of_range", "C16_seq_lookup_empty", "C16_seq_lookup_repeats", "C16_seq_lookup_empty_files_irrelevant", "C16_split_parts_concat", "C16_split_part_sizes", "C16_split_names_sorted", "C16_split_merge_plan_any_order"],
         "model_files": ["Model/FpsUtil.v", "Model/FpsGen.v"],
         "suites": [suite_fps.suite_file_seq, suite_fps.suite_batches, suite_fps.suite_fps_cli,
                    __import__('suite_fpsgen').suite_fpsgen, __import__('suite_numpysem').suite_numpysem],
